@@ -69,6 +69,9 @@ fn main() {
     harness::sched::install_quiet_panic_hook();
     let _ = harness::cond::tie_policy();
     let code = match id.as_str() {
+        "C02" => run(&props::regret::BoundDominates, tier, replay, hashes),
+        "C03" => run(&props::regret::CfrRate, tier, replay, hashes),
+        "C04" => run(&props::regret::SampledConverge, tier, replay, hashes),
         "C05" => run(&props::totality::Totality, tier, replay, hashes),
         "C06" => run(&props::threads::Threads { sampled: false }, tier, replay, hashes),
         "C07" => run(&props::threads::Threads { sampled: true }, tier, replay, hashes),
